@@ -439,6 +439,8 @@ func runC11(e *Env) error {
 	if e.Replay == "" && e.Atlas != "" {
 		c11CLI(e, pool)
 		c11CLIScripted(e, pool)
+		c11CLIInterrupted(e, pool)
+		c11PGClean(e)
 	}
 	return nil
 }
